@@ -156,7 +156,7 @@ func (f File) Validate() error {
 		}
 		customTypes[msg.Name] = struct{}{}
 		msgNames := map[string]struct{}{}
-		for _, fd := range msg.Fields {
+		for _, fd := range msg.sortedFields() {
 			if _, ok := msgNames[fd.Name]; ok {
 				return fmt.Errorf("message %s has duplicate field name %s", msg.Name, fd.Name)
 			}
@@ -272,9 +272,9 @@ func (f File) Validate() error {
 			structTypeUsage[stName] = usage
 		}
 	}
-	for stName, usage := range structTypeUsage {
-		if usage[stName] {
-			return fmt.Errorf("struct %s recursively includes itself as a required field", stName)
+	for _, st := range f.Structs {
+		if structTypeUsage[st.Name][st.Name] {
+			return fmt.Errorf("struct %s recursively includes itself as a required field", st.Name)
 		}
 	}
 
